@@ -15,6 +15,9 @@ type Check struct {
 }
 
 var Checks = map[string]*Check{}
+
+// Debug holds developer sub-commands (verif <name> ...).
+var Debug = map[string]func(args []string) int{}
 var Workers = map[string]core.Engine{}
 
 // register a check whose enumeration is sharded over worker processes.
